@@ -27,7 +27,7 @@ def jobs(tier):
     for end in ("drain", "disconnect", "partial_drain", "error"):
         for stall in ("start", "after1"):
             for k in ((1, 2) if tier == "quick" else (1, 2, 3)):
-                js.append(dict(name="%s:%s:k%d" % (end, stall, k), end=end, stall=stall, k=k, P=1 if tier == "quick" else 2, gran="sync"))
+                js.append(dict(name="%s:%s:k%d" % (end, stall, k), end=end, stall=stall, k=k, P=2 if (tier == "thorough" and k == 1) else 1, gran="sync"))
     if tier == "thorough":
         js.append(dict(name="drain:start:k2:line", end="drain", stall="start", k=2, P=1, gran="line"))
         js.append(dict(name="disconnect:start:k2:line", end="disconnect", stall="start", k=2, P=1, gran="line"))
